@@ -39,7 +39,8 @@ def reply(spec, key, other_key):
     acc = {
         'ok': acc_ok, 'other-key': ref_http.accept_for(base64.b64encode(other_key)), 'case-swapped': swapcase_ascii(acc_ok),
         'lower': acc_ok.lower(), 'upper': acc_ok.upper(), 'truncated': acc_ok[:-2], 'padded': acc_ok + b'=', 'empty': b'',
-        'prefix-junk': b'x' + acc_ok, 'suffix-junk': acc_ok + b'x', 'missing': None, 'key-itself': base64.b64encode(key),
+        'prefix-junk': b'x' + acc_ok, 'non-ascii': acc_ok[:5] + b'\xe9' + acc_ok[6:], 'all-ff': b'\xff' * 28,
+        'utf8-tail': acc_ok + '€'.encode('utf-8'), 'suffix-junk': acc_ok + b'x', 'missing': None, 'key-itself': base64.b64encode(key),
         'ok-quoted': b'"' + acc_ok + b'"', 'ok-twice': acc_ok + b', ' + acc_ok,
     }[kind]
     names = spec.get('names', {'u': b'Upgrade', 'c': b'Connection', 'a': b'Sec-WebSocket-Accept', 'x': b'X-Other'})
@@ -56,6 +57,13 @@ def reply(spec, key, other_key):
         if lines[k] is not None:
             out.append(lines[k])
     out.extend(spec.get('extra', []))
+    dup = spec.get('dup')
+    if dup == 'accept-right-later':
+        out.append(b'sec-websocket-accept: ' + acc_ok)          # differently cased duplicate carrying the right value
+    elif dup == 'accept-wrong-later':
+        out.append(b'SEC-WEBSOCKET-ACCEPT: ' + ref_http.accept_for(base64.b64encode(other_key)))
+    elif dup == 'upgrade-websocket-later':
+        out.append(b'UPGRADE: websocket')
     block = b'\r\n'.join(out) + b'\r\n\r\n'
     if 'size' in spec:
         # pad with unrelated header(s) so that the block (incl. CRLFCRLF) has exactly `size` bytes
@@ -101,9 +109,14 @@ def spec_families():
         {'sep_u': (b':\r\n\t', b''), 'sep_a': (b':\r\n   ', b'  ')},
         {'extra': [b'Sec-WebSocket-Protocol:\r\n chat']},
         {'sep_a': (b':\r\n ', b''), 'accept': 'other-key'},
+        {'accept': 'other-key', 'dup': 'accept-right-later'},            # duplicate headers that differ in name casing
+        {'accept': 'ok', 'dup': 'accept-wrong-later'},
+        {'upgrade': b'h2c', 'dup': 'upgrade-websocket-later'},
+        {'extra': [b'Sec-WebSocket-Extensions: permessage-deflate', b'sec-websocket-extensions: x-unknown-ext'], 'deflate': True},
     ]
     fam['accept'] = [{'accept': k} for k in ('ok', 'other-key', 'case-swapped', 'lower', 'upper', 'truncated', 'padded', 'empty',
-                                              'prefix-junk', 'suffix-junk', 'missing', 'key-itself', 'ok-quoted', 'ok-twice')]
+                                              'prefix-junk', 'suffix-junk', 'missing', 'key-itself', 'ok-quoted', 'ok-twice',
+                                              'non-ascii', 'all-ff', 'utf8-tail')]
     fam['status'] = [{'status': s} for s in (b'HTTP/1.1 101 Switching Protocols', b'HTTP/1.1 101', b'HTTP/1.1 101 OK', b'HTTP/1.0 101 Switching',
                                              b'HTTP/1.1 100 Continue', b'HTTP/1.1 200 OK', b'HTTP/1.1 204 No Content', b'HTTP/1.1 301 Moved',
                                              b'HTTP/1.1 400 Bad Request', b'HTTP/1.1 404 Not Found', b'HTTP/1.1 426 Upgrade Required',
